@@ -63,6 +63,9 @@ pub struct GenOpts {
   pub max_tasks: usize,
   pub exact_only: bool,
   pub max_ops: usize,
+  /// Upper bounds on the number of source / generated resources (3 / 3 in ordinary cases).
+  pub max_src: usize,
+  pub max_gen: usize,
 }
 
 fn pick_kind(rng: &mut Rng) -> Kind {
@@ -104,8 +107,8 @@ fn gen_pred(rng: &mut Rng) -> Pred {
 /// ReadGen, one checker per target per task, write checker refines read checkers.
 pub fn gen_program(rng: &mut Rng, o: &GenOpts) -> Program {
   let n_tasks = rng.range(2, o.max_tasks.max(2));
-  let n_src = rng.range(1, 3);
-  let n_gen = rng.range(0, 3.min(n_tasks - 1));
+  let n_src = rng.range(1, o.max_src.max(1));
+  let n_gen = rng.range(0, o.max_gen.min(n_tasks - 1));
   let n_res = n_src + n_gen;
   let mut owner: Vec<Option<u32>> = vec![None; n_res];
   for g in n_src..n_res { owner[g] = Some(rng.range(1, n_tasks - 1) as u32); }
